@@ -146,7 +146,31 @@ func runC07(c *Ctx) {
 			}},
 			&GCheck{Name: "slices.Contains(Protocol.Patches, action)", NoDescend: true, MatchCall: func(c *Ctx, call *ssa.Call, env Env) bool {
 				h := call.Call.StaticCallee()
-				return h != nil && isSlicesContains(h) && len(call.Call.Args) == 2 && c.Path(call.Call.Args[0], env) == "$0.Protocol.Patches" && isAct(c.Path(call.Call.Args[1], env))
+				if h != nil && isSlicesContains(h) && len(call.Call.Args) == 2 && c.Path(call.Call.Args[0], env) == "$0.Protocol.Patches" && isAct(c.Path(call.Call.Args[1], env)) {
+					return true
+				}
+				// slices.ContainsFunc(Protocol.Patches, func(a) bool { return conv(a) == action })
+				if fn, other := equalityClosureSearch(call); fn != nil && isBoolType(call.Type()) {
+					return c.Path(call.Call.Args[0], env) == "$0.Protocol.Patches" && isAct(strings.TrimPrefix(c.Path(other, nil), "up:"))
+				}
+				return false
+			}},
+			&GCheck{Name: "slices.IndexFunc(Protocol.Patches, a == action) >= 0", NoDescend: true, MatchCmp: func(c *Ctx, b *ssa.BinOp, env Env) (bool, bool) {
+				call, isC := b.X.(*ssa.Call)
+				if !isC {
+					return false, false
+				}
+				fn, other := equalityClosureSearch(call)
+				if fn == nil || isBoolType(call.Type()) || c.Path(call.Call.Args[0], env) != "$0.Protocol.Patches" || !isAct(strings.TrimPrefix(c.Path(other, nil), "up:")) {
+					return false, false
+				}
+				switch k := c.Path(b.Y, env); {
+				case (b.Op == token.GEQ && k == "0") || (b.Op == token.GTR && k == "-1") || (b.Op == token.NEQ && k == "-1"):
+					return true, true
+				case (b.Op == token.LSS && k == "0") || (b.Op == token.LEQ && k == "-1") || (b.Op == token.EQL && k == "-1"):
+					return true, false
+				}
+				return false, false
 			}}), nil)
 		return ok && n > 0
 	}})
